@@ -1,11 +1,19 @@
 #!/usr/bin/env python3
-"""Regenerates MANIFEST.json from lib/manifest_data.py (kept as data so it is always valid)."""
+"""Regenerates MANIFEST.json from lib/props/Cxx.json (so that it is always schema-valid)."""
 import json, os, sys
 sys.path.insert(0, os.path.dirname(os.path.abspath(__file__)))
-import manifest_data as M
+import props
 
-checks = []
-for pid, c in M.CHECKS.items():
+HOOK_COMMITS = ["d05b882"]
+NOTES = ("Every check is `./check Cxx`: regenerate translated tables from /repo, `lake build` the property's theorems, "
+         "audit axioms, rebuild the harness against /repo's working tree, run implementation and Lean model on the same "
+         "generated inputs, classify disagreements (impl-vs-spec = violation with replay; impl-vs-model or a broken proof "
+         "obligation with no failing input = VIOLATION ... no-failing-input-found). See DESIGN.md.")
+checks, na = [], []
+for pid, c in sorted(props.PROPS.items()):
+    if not c.get("claimed"):
+        na.append({"property_id": pid, "reason": c.get("not_applicable_reason", "not claimed")})
+        continue
     checks.append({
         "property_id": pid,
         "quick_cmd": "./check %s --tier quick" % pid,
@@ -13,8 +21,8 @@ for pid, c in M.CHECKS.items():
         "evidence_file": "evidence/%s.json" % pid,
         "replay_cmd_template": "./check %s --replay {path}" % pid,
         "engine": "lean4-proof+correspondence",
-        "level_claimed": {"category": "proof", "text": c["text"], "design_ref": c["design_ref"]},
-        "level_note": c["note"],
+        "level_claimed": {"category": "proof", "text": c["level_text"], "design_ref": c["design_ref"]},
+        "level_note": c["level_note"],
         "technique": c["technique"],
     })
 manifest = {
@@ -24,18 +32,18 @@ manifest = {
         "guard": "--cfg dmntk_verif",
         "enable": "RUSTFLAGS=\"--cfg dmntk_verif\" cargo build --offline (harness crate, path-patched to /repo)",
         "baseline_off_cmd": "cd /repo && cargo nextest run --workspace --no-fail-fast --tool-config-file pb:/w/lib/nextest.toml --profile pb --test-threads 8 --offline",
-        "source_commits": M.HOOK_COMMITS,
+        "source_commits": HOOK_COMMITS,
         "add_only": True,
     },
     "engines": [
         {"name": "lean4-proof+correspondence", "path": "lean/ harness/ check",
-         "serves_properties": sorted(M.CHECKS.keys()),
+         "serves_properties": [c["property_id"] for c in checks],
          "kind_free_text": "Lean 4 theorems about hand-written / regenerated models (lake build + #print axioms audit), tied to /repo by a differential harness that runs the real crates and the compiled Lean driver on the same inputs"},
     ],
     "checks": checks,
-    "notes": M.NOTES,
-    "not_applicable": [{"property_id": k, "reason": v} for k, v in M.NOT_APPLICABLE.items()],
+    "notes": NOTES,
+    "not_applicable": na,
 }
 out = os.path.join(os.path.dirname(os.path.dirname(os.path.abspath(__file__))), "MANIFEST.json")
 json.dump(manifest, open(out, "w"), indent=1)
-print("wrote", out, len(checks), "checks,", len(M.NOT_APPLICABLE), "not applicable")
+print("wrote", out, len(checks), "checks,", len(na), "not applicable")
